@@ -645,3 +645,310 @@ Proof.
 Qed.
 
 End RangeSpec.
+
+(* ---- packaging: range = ascending point reads ---- *)
+Definition hd_lab (g : list kv) : bytes := match g with e :: _ => lab e | [] => [] end.
+
+(* the verdicts of the resolver, TKey by TKey; the first conflict fails the whole range *)
+Fixpoint collect (l : list (bytes * res (option kv))) : res (list kv) :=
+  match l with
+  | [] => Ok []
+  | (tk, Ok None) :: r => collect r
+  | (tk, Ok (Some (_, v))) :: r => res_bind (collect r) (fun l' => Ok ((tk, v) :: l'))
+  | (_, Err) :: _ => Err
+  | (_, Panic) :: _ => Panic
+  end.
+
+Section Packaging.
+Variable best : list bytes -> res (option bytes).
+Variable cx : vctx.
+Let i := cx_instance cx.
+Hypothesis Hi : id_ok i.
+(* the resolver picks one of the keys it was given (true of VersionedKeyValue / GetBestKeyVersion:
+   they return an element of the map they built from those keys) *)
+Hypothesis best_in : forall ks k, best ks = Ok (Some k) -> In k ks.
+
+Definition point_kv (tk : bytes) (s : store) : res (option kv) :=
+  versioned_key_value best (entries_kv cx tk s).
+Definition range_tkeys (lo hi : bytes) (s : store) : list bytes :=
+  map hd_lab (chunk (in_scan cx lo hi s)).
+
+Lemma vkv_key_in g k v : versioned_key_value best g = Ok (Some (k, v)) -> In (k, v) g.
+Proof.
+  unfold versioned_key_value. destruct (best (map fst g)) as [[k'|]| |] eqn:B; try discriminate.
+  destruct (assoc k' g) as [v'|] eqn:A; try discriminate. intro H. inversion H; subst. clear H B.
+  induction g as [|[k2 v2] g IH]; simpl in A; [discriminate|].
+  destruct (bytes_eqb k k2) eqn:E.
+  - apply bytes_eqb_eq in E. inversion A; subst. now left.
+  - right. auto.
+Qed.
+
+Lemma consume_app a b : consume (a ++ b) =
+  match consume a with Ok l => res_bind (consume b) (fun l' => Ok (l ++ l')) | Err => Err | Panic => Panic end.
+Proof.
+  induction a as [|[e| |] a IH]; simpl.
+  - destruct (consume b); reflexivity.
+  - rewrite IH. destruct (consume a); simpl; try reflexivity. destruct (consume b); reflexivity.
+  - reflexivity.
+  - reflexivity.
+Qed.
+
+Lemma collect_chunks (gs : list (list kv)) :
+  (forall g, In g gs -> g <> [] /\ forall e, In e g -> tkey_from_key (Some (fst e)) = Ok (hd_lab g)) ->
+  res_bind (consume (flat_map (send best) gs)) to_tkvs
+  = collect (map (fun g => (hd_lab g, versioned_key_value best g)) gs).
+Proof.
+  induction gs as [|g gs IH]; intro H; [reflexivity|].
+  cbn [flat_map map collect]. rewrite consume_app.
+  destruct (H g ltac:(now left)) as [NE TK].
+  assert (IH' := IH (fun g' Hg' => H g' (or_intror Hg'))). clear IH.
+  destruct g as [|e0 g0]; [contradiction|].
+  assert (S : send best (e0 :: g0) = match versioned_key_value best (e0 :: g0) with
+                                     | Ok None => [] | Ok (Some e) => [Ok e] | Err => [Err] | Panic => [Panic] end)
+    by reflexivity.
+  rewrite S. clear S.
+  destruct (versioned_key_value best (e0 :: g0)) as [[[k v]|]| |] eqn:V; cbn [consume res_bind].
+  - pose proof (vkv_key_in _ _ _ V) as I. specialize (TK _ I). cbn [fst] in TK.
+    destruct (consume (flat_map (send best) gs)) as [l| |] eqn:C; cbn [res_bind] in *.
+    + cbn [app to_tkvs]. rewrite TK. cbn [res_bind]. rewrite <- IH'. destruct (to_tkvs l); reflexivity.
+    + now rewrite <- IH'.
+    + now rewrite <- IH'.
+  - destruct (consume (flat_map (send best) gs)) as [l| |] eqn:C; cbn [res_bind app] in *; exact IH'.
+  - reflexivity.
+  - reflexivity.
+Qed.
+
+(* C05, theorem 1: for every resolver, GetRange over [lo, hi] = the point verdicts of the TKeys
+   present in the interval, in ascending order, each once *)
+Lemma get_range_points lo hi s :
+  store_ok cx s -> bound_ok cx s lo -> bound_ok cx s hi -> prefix_free_pair lo hi -> lex_le lo hi ->
+  get_range best cx lo hi s = collect (map (fun tk => (tk, point_kv tk s)) (range_tkeys lo hi s)).
+Proof.
+  intros SO BL BH PF LE. unfold get_range.
+  rewrite (versioned_range_chunks best cx Hi lo hi false s SO BL BH PF LE).
+  change (strip false s) with s.
+  rewrite collect_chunks.
+  - unfold range_tkeys. rewrite map_map. f_equal. apply map_ext_in. intros g Hg.
+    destruct (chunk_is_point_read cx Hi lo hi s g SO BL BH Hg) as (tk & SL & NE & _ & _ & EQ).
+    assert (hd_lab g = tk) by (destruct g; [contradiction|]; now inversion SL).
+    unfold point_kv. now rewrite H, <- EQ.
+  - intros g Hg. destruct (chunk_is_point_read cx Hi lo hi s g SO BL BH Hg) as (tk & SL & NE & _ & _ & EQ).
+    split; [exact NE|]. intros e He.
+    assert (hd_lab g = tk) by (destruct g; [contradiction|]; now inversion SL). rewrite H.
+    assert (In e s) by (rewrite EQ in He; now apply filter_In in He).
+    assert (O : of_instance i (fst e) = true).
+    { rewrite EQ in He. apply filter_In in He as [_ X]. apply andb_true_iff in X as [X _].
+      now apply prefix_of_instance in X. }
+    destruct (entry_is_data_key cx e (so_entries cx s SO e H0 O)) as [_ T]. rewrite T. f_equal.
+    unfold same_lab in SL. rewrite Forall_forall in SL. auto.
+Qed.
+
+(* the TKeys of the result: inside the interval, present in the store ... *)
+Lemma range_tkeys_sound lo hi s tk :
+  store_ok cx s -> bound_ok cx s lo -> bound_ok cx s hi -> In tk (range_tkeys lo hi s) ->
+  lex_le lo tk /\ lex_le tk hi /\ entries_kv cx tk s <> [].
+Proof.
+  intros SO BL BH H. unfold range_tkeys in H. apply in_map_iff in H as (g & E & Hg).
+  destruct (chunk_is_point_read cx Hi lo hi s g SO BL BH Hg) as (tk' & SL & NE & L1 & L2 & EQ).
+  assert (hd_lab g = tk') by (destruct g; [contradiction|]; now inversion SL).
+  rewrite H in E. subst tk'. repeat split; auto. now rewrite <- EQ.
+Qed.
+
+(* ... all of them ... *)
+Lemma range_tkeys_complete lo hi s e :
+  store_ok cx s -> bound_ok cx s lo -> bound_ok cx s hi ->
+  In e s -> of_instance i (fst e) = true -> lex_le lo (lab e) -> lex_le (lab e) hi ->
+  In (lab e) (range_tkeys lo hi s).
+Proof.
+  intros SO BL BH He O L1 L2.
+  destruct (so_entries cx s SO e He O) as (tk & v & c & m & Ek & Hv & Hc & Hm).
+  assert (LB : lab e = tk) by (unfold lab; now rewrite Ek, tkey_from_data_key). rewrite LB in *.
+  assert (IS : In e (in_scan cx lo hi s)).
+  { unfold in_scan. rewrite scan_filter by apply SO. apply filter_In. split; [exact He|].
+    apply in_rangeb_in_range. rewrite Ek. fold i. split.
+    - eapply lex_le_trans; [|apply (versions_between i tk v c m Hi Hv Hc Hm)].
+      pose proof (BL e He O) as PF. rewrite LB in PF.
+      unfold lex_le in *. rewrite !min_version_key_eq, key_order; try assumption; try (unfold id_ok; reflexivity).
+      unfold tuple_compare. rewrite !N.compare_refl. cbn [cmp_then].
+      destruct (lex_compare lo tk); cbn [cmp_then]; try congruence; try discriminate.
+    - eapply lex_le_trans; [apply (versions_between i tk v c m Hi Hv Hc Hm)|].
+      apply (max_key_mono cx Hi); [|exact L2]. apply prefix_free_pair_sym. rewrite <- LB. now apply BH. }
+  rewrite <- (chunk_concat (in_scan cx lo hi s)) in IS. apply in_concat in IS as (g & Hg & Ig).
+  destruct (chunk_is_point_read cx Hi lo hi s g SO BL BH Hg) as (tk' & SL & NE & _ & _ & _).
+  unfold range_tkeys. apply in_map_iff. exists g. split; [|exact Hg].
+  assert (hd_lab g = tk') by (destruct g; [contradiction|]; now inversion SL). rewrite H.
+  unfold same_lab in SL. rewrite Forall_forall in SL. rewrite <- (SL e Ig). exact LB.
+Qed.
+
+End Packaging.
+
+(* ... in strictly ascending order *)
+Lemma lex_lt_of_le_ne a b : lex_le a b -> a <> b -> lex_lt a b.
+Proof. intros L N. apply lex_le_cases in L as [L|L]; [exact L|contradiction]. Qed.
+
+Lemma chunk_labels_ascending l : mono l -> StronglySorted lex_lt (map hd_lab (chunk l)).
+Proof.
+  induction 1 as [|x r Hr IH Hx]; [constructor|].
+  destruct r as [|y r'].
+  - simpl. repeat constructor.
+  - destruct (chunk_head_label y r') as (g & gs & E & _).
+    destruct (bytes_eqb (lab x) (lab y)) eqn:B.
+    + apply bytes_eqb_eq in B. rewrite (chunk_cons_eq x y r' g gs B E).
+      rewrite E in IH. cbn [map hd_lab] in *. now rewrite B.
+    + assert (NE : lab x <> lab y) by (intro C; rewrite C, (proj2 (bytes_eqb_eq _ _) eq_refl) in B; discriminate).
+      rewrite (chunk_cons_diff x y r' NE). cbn [map hd_lab].
+      constructor; [exact IH|].
+      rewrite E in *. cbn [map hd_lab] in *.
+      assert (L1 : lex_lt (lab x) (lab y)).
+      { apply lex_lt_of_le_ne; [|exact NE]. inversion Hx; subst. exact H1. }
+      constructor; [exact L1|].
+      inversion IH as [|? ? _ Hall]; subst.
+      apply Forall_forall. intros t Ht. rewrite Forall_forall in Hall.
+      unfold lex_lt in *. eapply lex_compare_lt_trans; eauto.
+Qed.
+
+Lemma range_tkeys_ascending cx lo hi s :
+  id_ok (cx_instance cx) -> store_ok cx s -> StronglySorted lex_lt (range_tkeys cx lo hi s).
+Proof.
+  intros Hi SO. unfold range_tkeys. apply chunk_labels_ascending.
+  assert (P : forall e, In e (in_scan cx lo hi s) ->
+              In e s /\ of_instance (cx_instance cx) (fst e) = true /\ entry_of cx e /\
+              lex_le (min_version_key (cx_instance cx) lo) (fst e) /\ lex_le (fst e) (max_version_key (cx_instance cx) hi))
+    by (intros e He; now apply in_scan_props).
+  apply (sorted_mono_entries cx Hi).
+  - unfold in_scan. rewrite scan_filter by apply SO. apply sorted_filter. apply SO.
+  - apply Forall_forall. intros e He. apply P in He. tauto.
+  - intros a b Ha Hb. apply P in Ha. apply P in Hb. apply (so_pf cx s SO); tauto.
+Qed.
+
+(* ---- the point read of badger.Get is the same verdict, read through kv_get ---- *)
+Lemma bytes_eqb_sym a b : bytes_eqb a b = bytes_eqb b a.
+Proof.
+  destruct (bytes_eqb a b) eqn:E1, (bytes_eqb b a) eqn:E2; try reflexivity.
+  - apply bytes_eqb_eq in E1. subst. rewrite (proj2 (bytes_eqb_eq _ _) eq_refl) in E2. discriminate.
+  - apply bytes_eqb_eq in E2. subst. rewrite (proj2 (bytes_eqb_eq _ _) eq_refl) in E1. discriminate.
+Qed.
+
+Lemma assoc_filter_sorted (P : bytes -> bool) k s : sorted s ->
+  In k (map fst (filter (fun e => P (fst e)) s)) ->
+  assoc k (filter (fun e => P (fst e)) s) = kv_get k s.
+Proof.
+  induction 1 as [|[k' v'] s Hs IH Ha]; intro Hk; [contradiction|].
+  assert (GT : forall x, In x s -> lex_lt k' (fst x)).
+  { rewrite Forall_forall in Ha. exact Ha. }
+  assert (TAIL : In k (map fst (filter (fun e => P (fst e)) s)) -> lex_compare k k' = Gt).
+  { intro H. apply in_map_iff in H as (e & <- & He). apply filter_In in He as [He _].
+    apply lex_gt_lt. now apply GT. }
+  cbn [filter fst] in *. cbn [kv_get]. destruct (P k') eqn:Pk.
+  - cbn [map fst assoc] in *. destruct Hk as [<-|Hk].
+    + rewrite lex_compare_refl. now rewrite (proj2 (bytes_eqb_eq _ _) eq_refl).
+    + rewrite (TAIL Hk). destruct (bytes_eqb k k') eqn:B.
+      * apply bytes_eqb_eq in B. subst. specialize (TAIL Hk). rewrite lex_compare_refl in TAIL. discriminate.
+      * now apply IH.
+  - rewrite (TAIL Hk). now apply IH.
+Qed.
+
+Section PointRead.
+Variable best : list bytes -> res (option bytes).
+Variable cx : vctx.
+Let i := cx_instance cx.
+Hypothesis best_in : forall ks k, best ks = Ok (Some k) -> In k ks.
+
+Lemma point_get_verdict tk s : sorted s ->
+  point_get best cx tk s =
+  match point_kv best cx tk s with
+  | Ok (Some (_, v)) => match v with [] => None | _ => Some v end
+  | _ => None
+  end.
+Proof.
+  intro Hs. unfold point_get, point_key, point_kv, versioned_key_value.
+  rewrite (entries_kv_keys cx tk s Hs).
+  destruct (best (get_key_versions_exact (cx_instance cx) tk s)) as [[k|]| |] eqn:B; try reflexivity.
+  pose proof (best_in _ _ B) as I. rewrite <- (entries_kv_keys cx tk s Hs) in I.
+  unfold entries_kv in *.
+  rewrite (assoc_filter_sorted
+             (fun k0 => prefixb (unversioned_prefix (cx_instance cx) tk) k0
+                        && Nat.eqb (length k0) (length (unversioned_prefix (cx_instance cx) tk) + suffix_size)) k s Hs I).
+  destruct (kv_get k s) as [[|b v]|]; reflexivity.
+Qed.
+
+(* keys-only scans run the same resolver on the same keys *)
+Lemma entries_kv_strip tk s : map fst (entries_kv cx tk (strip true s)) = map fst (entries_kv cx tk s).
+Proof.
+  unfold entries_kv, strip. induction s as [|[k v] s IH]; [reflexivity|]. cbn [map filter fst].
+  destruct (prefixb _ k && Nat.eqb _ _); cbn [map fst]; now rewrite IH.
+Qed.
+
+Lemma keys_in_range_as_get_range lo hi s :
+  keys_in_range best cx lo hi s = res_bind (get_range best cx lo hi (strip true s)) (fun l => Ok (map fst l)).
+Proof.
+  unfold keys_in_range, get_range, versioned_range. change (strip false (strip true s)) with (strip true s).
+  destruct (consume _); reflexivity.
+Qed.
+
+Lemma consume_until m l : consume m = Ok l -> until_stop m = l.
+Proof.
+  revert l; induction m as [|[e| |] m IH]; intros l H; simpl in *; try discriminate.
+  - now inversion H.
+  - destruct (consume m) as [l0| |]; try discriminate. inversion H; subst. f_equal. now apply IH.
+Qed.
+
+(* C05, theorem 3a: DeleteRange deletes (at the context's version) exactly the TKeys the keys-only
+   scan reports, when that scan succeeds *)
+Lemma delete_range_keys lo hi s tks :
+  keys_in_range best cx lo hi s = Ok tks ->
+  delete_range best cx lo hi s = Ok (fold_left (fun acc tk => delete cx tk acc) tks s).
+Proof.
+  unfold keys_in_range, delete_range.
+  destruct (consume (versioned_range best cx lo hi true s)) as [l| |] eqn:C; try discriminate.
+  rewrite (consume_until _ _ C). cbn [res_bind].
+  destruct (to_tkvs l) as [l'| |]; try discriminate. cbn [res_bind]. intro H. inversion H; subst. f_equal.
+  clear. revert s. induction l' as [|e l' IH]; intro s; [reflexivity|]. simpl. apply IH.
+Qed.
+
+(* C05, theorem 3b: whatever DeleteRange does, it only writes entries of (instance, context version):
+   every other version's entries, and every other instance's, are untouched *)
+Definition own_version (k : bytes) : bool :=
+  of_instance i k && match version_from_key (Some k) with Ok v => v =? cx_version cx | _ => false end.
+
+Lemma own_version_data_key tk c m : id_ok (cx_version cx) -> own_version (data_key i tk (cx_version cx) c m) = true.
+Proof.
+  intro Hv. unfold own_version. rewrite version_of_data_key by assumption. rewrite N.eqb_refl, andb_true_r.
+  apply prefixb_is_prefix. rewrite data_key_split. now exists (tk ++ key_suffix (cx_version cx) c m).
+Qed.
+
+Lemma delete_keeps_other_versions tk s : id_ok (cx_version cx) ->
+  filter (fun e => negb (own_version (fst e))) (delete cx tk s) = filter (fun e => negb (own_version (fst e))) s.
+Proof.
+  intro Hv. unfold delete, tombstone_key, construct_data_key. fold i.
+  rewrite (filter_kv_set (fun k => negb (own_version k))) by (now rewrite own_version_data_key).
+  now rewrite (filter_kv_del (fun k => negb (own_version k))) by (now rewrite own_version_data_key).
+Qed.
+
+Lemma delete_range_other_versions lo hi s s' : id_ok (cx_version cx) ->
+  delete_range best cx lo hi s = Ok s' ->
+  filter (fun e => negb (own_version (fst e))) s' = filter (fun e => negb (own_version (fst e))) s.
+Proof.
+  intros Hv. unfold delete_range.
+  destruct (to_tkvs _) as [l| |]; try discriminate. cbn [res_bind]. intro H. inversion H; subst. clear H.
+  revert s. induction l as [|e l IH]; intro s; [reflexivity|]. simpl. rewrite IH.
+  now apply delete_keeps_other_versions.
+Qed.
+
+End PointRead.
+
+(* ---- C05, theorem 4: keyvalue key strings without byte 0 sort like their TKeys ---- *)
+Lemma term_compare a b : ~ In 0 a -> ~ In 0 b -> lex_compare (a ++ [0]) (b ++ [0]) = lex_compare a b.
+Proof.
+  revert b; induction a as [|x a IH]; intros b Na Nb.
+  - destruct b as [|y b]; [reflexivity|]. simpl. destruct y; [exfalso; apply Nb; now left|reflexivity].
+  - destruct b as [|y b].
+    + simpl. destruct x; [exfalso; apply Na; now left|reflexivity].
+    + simpl. destruct (x ?= y); try reflexivity. apply IH; intro H; [apply Na|apply Nb]; now right.
+Qed.
+
+Lemma kv_string_order a b : ~ In 0 a -> ~ In 0 b -> lex_compare (kv_tkey a) (kv_tkey b) = lex_compare a b.
+Proof.
+  intros Na Nb. unfold kv_tkey, tkey_of. cbn [kc_shape kc_keyvalue_NewTKey]. unfold new_tkey.
+  rewrite !lex_compare_cons. now apply term_compare.
+Qed.
